@@ -424,6 +424,8 @@ class WriterModel(object):
             return
         fn = e.func
         nm = P.call_name(e)
+        if isinstance(fn, ast.Name) and isinstance(env.get(fn.id), str) and env[fn.id].startswith('self.') and env[fn.id][5:] in self.methods:
+            nm = env[fn.id]          # a bound method taken from a dispatch table: `write_node = self._write_x; write_node(node)`
         if isinstance(fn, ast.Attribute) and isinstance(fn.value, ast.Name) and fn.value.id in lists:
             lst = lists[fn.value.id]
             if fn.attr == 'append' and len(e.args) == 1:
